@@ -163,38 +163,54 @@ func c07HeadFallback(c *core.Ctx, m *errModel) {
 	}
 	c.Analysed("ociclient.makeError1")
 	n := 0
-	// err variable is a phi of Err* globals selected by resp.StatusCode == const
+	// rows: an Err* global selected under resp.StatusCode == const — either as
+	// an edge of the phi holding the result, or returned directly from the arm
+	type row struct {
+		v   ssa.Value
+		at  *ssa.BasicBlock
+		pos token.Pos
+	}
+	var rows []row
 	for _, b := range fn.Blocks {
 		for _, in := range b.Instrs {
-			ph, ok := in.(*ssa.Phi)
-			if !ok || ph.Type().String() != "error" {
-				continue
-			}
-			for i, e := range ph.Edges {
-				name := errGlobalOf(e)
-				if name == "" {
-					continue
-				}
-				pred := b.Preds[i]
-				var st int64 = -1
-				for _, cd := range facts.CondsAt(pred) {
-					if x, op, y, ok := facts.Cmp(cd); ok && op == token.EQL {
-						if _, fld, isF := facts.FieldOf(facts.Resolve(x)); isF && fld == "StatusCode" {
-							if k, isK := facts.ConstInt(y); isK && st < 0 {
-								st = k
-							}
-						}
+			switch x := in.(type) {
+			case *ssa.Phi:
+				if x.Type().String() == "error" {
+					for i, e := range x.Edges {
+						rows = append(rows, row{e, b.Preds[i], x.Pos()})
 					}
 				}
-				if st < 0 {
-					continue
+			case *ssa.Return:
+				if len(x.Results) == 1 {
+					if _, isPhi := x.Results[0].(*ssa.Phi); !isPhi {
+						rows = append(rows, row{facts.RetVal(x, 0), b, x.Pos()})
+					}
 				}
-				n++
-				tbl, has := m.StatusOf[name]
-				c.Check(has && tbl == st, "C07.R2", sprintf("head-fallback/%d", st), ph.Pos(), sprintf("HEAD %d -> %s, whose code maps back to %d", st, name, st),
-					sprintf("the HEAD fallback maps status %d to %s, whose code is answered with status %d by the server: a second hop changes the status", st, name, tbl))
 			}
 		}
+	}
+	for _, rw := range rows {
+		name := errGlobalOf(rw.v)
+		if name == "" {
+			continue
+		}
+		var st int64 = -1
+		for _, cd := range facts.CondsAt(rw.at) {
+			if x, op, y, ok := facts.Cmp(cd); ok && op == token.EQL {
+				if _, fld, isF := facts.FieldOf(facts.Resolve(x)); isF && fld == "StatusCode" {
+					if k, isK := facts.ConstInt(y); isK && st < 0 {
+						st = k
+					}
+				}
+			}
+		}
+		if st < 0 {
+			continue
+		}
+		n++
+		tbl, has := m.StatusOf[name]
+		c.Check(has && tbl == st, "C07.R2", sprintf("head-fallback/%d", st), rw.pos, sprintf("HEAD %d -> %s, whose code maps back to %d", st, name, st),
+			sprintf("the HEAD fallback maps status %d to %s, whose code is answered with status %d by the server: a second hop changes the status", st, name, tbl))
 	}
 	if n < 4 {
 		c.Fail("C07.R2", "head-fallback/instance-floor", fn.Pos(), sprintf("only %d status rows found in the HEAD fallback", n))
@@ -261,7 +277,7 @@ func c06StatusFollowsCodeOnly(c *core.Ctx, rule string) {
 		return
 	}
 	c.Analysed("ociregistry.MarshalError")
-	for _, ci := range facts.CallsIn(me) {
+	for _, ci := range statusDeciderCalls(c, me) {
 		cc := ci.Common()
 		if !cc.IsInvoke() || cc.Method.Name() != "StatusCode" {
 			continue
@@ -513,28 +529,73 @@ func c07Is(c *core.Ctx) {
 		}
 	}
 	c.Check(hasCmp && okRet, "C07.R7", "WireError.Is/by-code", wis.Pos(), "true only under equality of the two codes", "WireError.Is can answer true without the two codes being compared equal")
-	// httpError.Is: true only under statusCode == 416 and target == ErrRangeInvalid
+	// httpError.Is: true only under statusCode == 416 and target == ErrRangeInvalid.
+	// A possibly-true result is a returned value (or an edge of the returned phi)
+	// that is not the constant false; the facts that then hold are the branch
+	// conditions of the block it comes from plus the value itself being true.
+	type cand struct {
+		v  ssa.Value
+		at *ssa.BasicBlock
+	}
 	for _, r := range returnsOf(his) {
-		v := facts.Resolve(r.Results[0])
-		if cst, ok := v.(*ssa.Const); ok && cst.Value != nil && cst.Value.ExactString() == "false" {
-			continue
+		var cands []cand
+		if ph, ok := r.Results[0].(*ssa.Phi); ok {
+			for i, e := range ph.Edges {
+				cands = append(cands, cand{facts.Resolve(e), ph.Block().Preds[i]})
+			}
+		} else {
+			cands = append(cands, cand{facts.Resolve(r.Results[0]), r.Block()})
 		}
-		is416 := false
-		for _, cd := range facts.CondsAt(r.Block()) {
-			if x, op, y, ok := facts.Cmp(cd); ok && op == token.EQL {
+		for _, cd0 := range cands {
+			if cst, ok := cd0.v.(*ssa.Const); ok && cst.Value != nil && cst.Value.ExactString() == "false" {
+				continue
+			}
+			conds := append([]facts.Cond{}, facts.CondsAt(cd0.at)...)
+			conds = append(conds, facts.Cond{V: cd0.v, Pos: true})
+			is416, isRange := false, false
+			for _, cd := range conds {
+				x, op, y, ok := facts.Cmp(cd)
+				if !ok || op != token.EQL {
+					continue
+				}
 				if _, fld, isF := facts.FieldOf(facts.Resolve(x)); isF && fld == "statusCode" {
 					if k, isK := facts.ConstInt(y); isK && k == 416 {
 						is416 = true
 					}
 				}
+				if errGlobalOf(y) == "ErrRangeInvalid" || errGlobalOf(x) == "ErrRangeInvalid" {
+					isRange = true
+				}
 			}
+			c.Check(is416 && isRange, "C07.R7", "httpError.Is/416-range", r.Pos(), "true only for status 416 and ErrRangeInvalid", "httpError.Is can answer true for something other than (status 416, ErrRangeInvalid)")
 		}
-		isRange := false
-		if bo, ok := v.(*ssa.BinOp); ok && bo.Op == token.EQL {
-			if errGlobalOf(bo.Y) == "ErrRangeInvalid" || errGlobalOf(bo.X) == "ErrRangeInvalid" {
-				isRange = true
-			}
-		}
-		c.Check(is416 && isRange, "C07.R7", "httpError.Is/416-range", r.Pos(), "true only for status 416 and ErrRangeInvalid", "httpError.Is can answer true for something other than (status 416, ErrRangeInvalid)")
 	}
+}
+
+// statusDeciderCalls: the calls made by MarshalError and by the same-package
+// helpers it delegates the choice of the HTTP status to (functions with a sole
+// int result, followed to depth 2).
+func statusDeciderCalls(c *core.Ctx, me *ssa.Function) []ssa.CallInstruction {
+	var out []ssa.CallInstruction
+	seen := map[*ssa.Function]bool{}
+	var visit func(f *ssa.Function, d int)
+	visit = func(f *ssa.Function, d int) {
+		if seen[f] {
+			return
+		}
+		seen[f] = true
+		for _, ci := range facts.CallsIn(f) {
+			out = append(out, ci)
+			h := ci.Common().StaticCallee()
+			if h == nil || h.Blocks == nil || h.Pkg != me.Pkg || d <= 0 {
+				continue
+			}
+			if r := h.Signature.Results(); r.Len() == 1 && r.At(0).Type().String() == "int" {
+				c.Analysed(facts.FuncName(h))
+				visit(h, d-1)
+			}
+		}
+	}
+	visit(me, 2)
+	return out
 }
